@@ -18,6 +18,16 @@
 //! crash <hex src>   -> ok | panic     a program on which the generator saw the front end panic
 //! F=<functions>,<locals>,<scopes>,<statements>,<calls>;<locals_len of every function>
 //! ```
+//! The `X=` token of an `e2e` request may carry a *twin* (the model ignores the whole token):
+//! `X=<hex|?>,T=<hex twin src>,P=<payload offset>:<payload offset in the twin>:<payload length>,`
+//! `O=<output lines before the payload>,A=<hex expected output before the payload>,G=<generator spec>`.
+//! Both sources contain the same *payload* text; everything around it (the scalable part: a large
+//! strongly connected call-graph component, independent functions, padding) differs only in size.
+//! Metamorphic oracle (`gen-scc`, see `Scc`): while no configured limit is exceeded the warnings
+//! inside the payload (message, label, span relative to the payload), the multiset of warnings
+//! outside it, the pruned statements / function definitions inside the payload (relative spans),
+//! their number outside it and the payload's output are those of the twin - the size of a
+//! component must not matter below the limits; above a limit only the output is compared.
 //! `run` evaluates oracles that need no model and reports `ORACLE-FAIL <line> <what>` on stderr:
 //! the staged answer vs. "first metric in stage order above its cap" computed naively (u128) from
 //! the real counts; `total_ops == statements`; limit tripped ⇔ plan absent ⇔ exactly one `analysis`
@@ -41,8 +51,9 @@ use naijascript::analysis::facts::{
 use naijascript::analysis::ids::{FunctionId, ScopeId};
 use naijascript::analysis::limits::{AnalysisCaps, AnalysisLimit, DEFAULT_CAPS, first_exceeded_limit};
 use naijascript::analysis::opt::OptimizationPlan;
+use naijascript::analysis::summary;
 use naijascript::arena::Arena;
-use naijascript::diagnostics::{Diagnostics, Severity};
+use naijascript::diagnostics::{Diagnostics, Severity, Span};
 use naijascript::resolver::Resolver;
 use naijascript::runtime::Runtime;
 use naijascript::syntax::parser::{BlockRef, Parser, Stmt};
@@ -56,13 +67,15 @@ pub fn main(args: &[String]) -> i32 {
     match args.first().map(String::as_str) {
         Some("gen") => generate(&args[1..]),
         Some("gen-e2e") => gen_e2e(&args[1..]),
+        Some("gen-scc") => gen_scc(&args[1..]),
         Some("src") => print_src(&args[1..]),
         Some("mk") => mk(),
         Some("run") => run(),
         _ => {
             eprintln!(
                 "usage: nvh limits gen --seed S --n N [--lim M] | gen-e2e --case <name>:<delta>[,…] | \
-                 src --case <name>:<delta> | mk < '<caps> <hex src>' lines | run < requests"
+                 gen-scc [--case <scc/k=..>[,…]] [--seed S --n N [--big]] | \
+                 src --case <name>:<delta> | src --case <scc/k=..> [--twin] | mk < '<caps> <hex src>' lines | run < requests"
             );
             2
         }
@@ -522,9 +535,280 @@ fn ranges_contiguous(facts: &ProgramFacts<'_, '_>) -> bool {
 
 const PASS_WARNINGS: [&str; 4] = ["Unreachable code", "Unused assignment", "Unused variable", "Unused function"];
 
-fn answer_prog(caps: Option<AnalysisCaps>, rootspan: &str, hexsrc: &str, expect: Option<&str>, lineno: usize) -> Answer {
+/// The optional parts of an `e2e` request's `X=` token (see the module docs).
+#[derive(Default)]
+struct Extras {
+    expect: Option<String>,
+    twin: Option<String>,
+    off: usize,
+    twin_off: usize,
+    pay_len: usize,
+    pre_lines: usize,
+    pre_expect: Option<String>,
+    spec: String,
+}
+
+fn parse_extras(x: Option<&str>) -> Option<Extras> {
+    let mut e = Extras::default();
+    let Some(x) = x else { return Some(e) };
+    let text = |h: &str| util::unhex(h).and_then(|b| String::from_utf8(b).ok());
+    for (i, part) in x.split(',').enumerate() {
+        if i == 0 {
+            if part != "?" {
+                e.expect = Some(text(part)?);
+            }
+        } else if let Some(h) = part.strip_prefix("T=") {
+            e.twin = Some(text(h)?);
+        } else if let Some(p) = part.strip_prefix("P=") {
+            let v: Vec<usize> = p.split(':').map(|n| n.parse().ok()).collect::<Option<_>>()?;
+            if v.len() != 3 {
+                return None;
+            }
+            (e.off, e.twin_off, e.pay_len) = (v[0], v[1], v[2]);
+        } else if let Some(n) = part.strip_prefix("O=") {
+            e.pre_lines = n.parse().ok()?;
+        } else if let Some(h) = part.strip_prefix("A=") {
+            e.pre_expect = Some(text(h)?);
+        } else if let Some(g) = part.strip_prefix("G=") {
+            e.spec = g.to_string();
+        } else {
+            return None;
+        }
+    }
+    Some(e)
+}
+
+fn stmt_span(s: &Stmt<'_>) -> Span {
+    match s {
+        Stmt::FunctionDef { span, .. }
+        | Stmt::Assign { span, .. }
+        | Stmt::AssignExisting { span, .. }
+        | Stmt::AssignIndex { span, .. }
+        | Stmt::If { span, .. }
+        | Stmt::Loop { span, .. }
+        | Stmt::Block { span, .. }
+        | Stmt::Return { span, .. }
+        | Stmt::Break { span }
+        | Stmt::Continue { span }
+        | Stmt::Expression { span, .. } => span.clone(),
+    }
+}
+
+/// What the metamorphic oracle compares between a program and its twin: everything the analysis
+/// stage produced, with positions relative to the shared payload text.
+#[derive(Default)]
+struct Digest {
+    limit: String,
+    /// warnings whose span starts inside the payload: `message|label|lo:hi` (relative), sorted
+    pay_warn: Vec<String>,
+    /// messages of the warnings outside the payload, sorted (a multiset)
+    out_warn: Vec<String>,
+    /// pruned statements / function definitions inside the payload: `stmt lo:hi` / `fn lo:hi`
+    pay_plan: Vec<String>,
+    out_plan: usize,
+    /// output lines after the first `pre_lines`, and the runtime diagnostics
+    pay_out: Vec<String>,
+    pre_out: Vec<String>,
+    rt: String,
+    /// the two components `c0..c<k-1>` and `p0..p<kp-1>` (defined outside the payload, called only from
+    /// it and from each other): number of definitions, how many of them carry a warning, how many are
+    /// pruned. When the payload never calls a component it is unused as a whole - `k` warnings here, 3 in
+    /// the twin.
+    comp_total: [usize; 2],
+    comp_warn: [usize; 2],
+    comp_plan: [usize; 2],
+}
+
+fn digest_of(
+    resolver: &Resolver<'_, '_>,
+    src: &str,
+    off: usize,
+    pay_len: usize,
+    pre_lines: usize,
+    limit: String,
+    ran: &(String, String),
+) -> Digest {
+    let inside = |start: usize| start >= off && start < off + pay_len;
+    // relative span and, for the reader, the first line of the text it covers
+    let rel = |r: &Span| {
+        let text = src.get(r.start..r.end.min(src.len())).and_then(|t| t.lines().next()).unwrap_or("");
+        format!("{}:{} `{}`", r.start - off, r.end.saturating_sub(off), text)
+    };
+    let mut d = Digest { limit, rt: ran.1.clone(), ..Digest::default() };
+    // does the line containing byte `at` define a function of the side-effect-free component?
+    let comp_line = |l: &str| {
+        ["do c", "do p"].iter().position(|pre| l.strip_prefix(pre).is_some_and(|r| r.starts_with(|c: char| c.is_ascii_digit())))
+    };
+    let comp_def = |at: usize| {
+        let at = at.min(src.len());
+        let lo = src[..at].rfind('\n').map_or(0, |i| i + 1);
+        comp_line(&src[lo..])
+    };
+    for l in src.lines() {
+        if let Some(i) = comp_line(l) {
+            d.comp_total[i] += 1;
+        }
+    }
+    for w in resolver.errors.diagnostics.iter().filter(|w| w.code != "analysis") {
+        if let (false, Some(i)) = (inside(w.span.start), comp_def(w.span.start)) {
+            d.comp_warn[i] += 1;
+        } else if inside(w.span.start) {
+            let label = w.labels.first().map_or(String::new(), |l| l.message.as_ref().to_string());
+            d.pay_warn.push(format!("{}|{}|{}", w.message, label, rel(&w.span)));
+        } else {
+            d.out_warn.push(w.message.to_string());
+        }
+    }
+    if let Some(plan) = resolver.optimization_plan.as_ref() {
+        for &id in &plan.removable_stmts {
+            let sp = stmt_span(resolver.facts.stmt_effect(id).stmt);
+            if inside(sp.start) {
+                d.pay_plan.push(format!("stmt {}", rel(&sp)));
+            } else if let Some(i) = comp_def(sp.start) {
+                d.comp_plan[i] += 1;
+            } else {
+                d.out_plan += 1;
+            }
+        }
+        for &f in &plan.removable_function_defs {
+            let sp = resolver.facts.function(f).def_span.clone();
+            if inside(sp.start) {
+                d.pay_plan.push(format!("fn {}", rel(&sp)));
+            } else if let Some(i) = comp_def(sp.start) {
+                d.comp_plan[i] += 1;
+            } else {
+                d.out_plan += 1;
+            }
+        }
+    }
+    d.pay_warn.sort();
+    d.out_warn.sort();
+    d.pay_plan.sort();
+    let lines: Vec<String> = if ran.0.is_empty() { Vec::new() } else { ran.0.split('\n').map(str::to_string).collect() };
+    let cut = pre_lines.min(lines.len());
+    d.pre_out = lines[..cut].to_vec();
+    d.pay_out = lines[cut..].to_vec();
+    d
+}
+
+/// The twin through the same pipeline (own arenas): resolve, preflight, run with the plan.
+fn twin_digest(src: &str, off: usize, pay_len: usize, pre_lines: usize) -> Result<Digest, String> {
+    util::catch(|| {
+        let arena = arena_for(src.len());
+        let frame = Arena::new(pipeline::ARENA_CAP).unwrap();
+        let lexer = Lexer::new(src, &arena);
+        let mut parser = Parser::new(lexer, &arena);
+        let (root, perrs) = parser.parse_program();
+        if !perrs.diagnostics.is_empty() {
+            return Err(format!("the twin does not parse: {}", pipeline::diags_str(perrs)));
+        }
+        let mut resolver = Resolver::new(&arena);
+        resolver.resolve(root);
+        if resolver.errors.has_errors() {
+            return Err(format!("the twin is rejected: {}", pipeline::diags_str(&resolver.errors)));
+        }
+        let counts = cfg::count_program(&resolver.facts, &arena);
+        let limit = limit_str(first_exceeded_limit(&resolver.facts, &counts, DEFAULT_CAPS));
+        let ran = run_once(root, &resolver.facts, resolver.optimization_plan.as_ref(), &arena, &frame);
+        Ok(digest_of(&resolver, src, off, pay_len, pre_lines, limit, &ran))
+    })
+    .unwrap_or_else(|m| Err(format!("the twin makes the pipeline panic: {}", m.replace('\n', " "))))
+}
+
+/// Multiset difference of two sorted lists: (only in `a`, only in `b`).
+fn diff_sorted(a: &[String], b: &[String]) -> (Vec<String>, Vec<String>) {
+    let (mut i, mut j) = (0, 0);
+    let (mut only_a, mut only_b) = (Vec::new(), Vec::new());
+    while i < a.len() || j < b.len() {
+        if j >= b.len() || (i < a.len() && a[i] < b[j]) {
+            only_a.push(a[i].clone());
+            i += 1;
+        } else if i >= a.len() || b[j] < a[i] {
+            only_b.push(b[j].clone());
+            j += 1;
+        } else {
+            i += 1;
+            j += 1;
+        }
+    }
+    (only_a, only_b)
+}
+
+fn show_list(v: &[String]) -> String {
+    let mut s = v.iter().take(6).map(|x| format!("{x:?}")).collect::<Vec<_>>().join(", ");
+    if v.len() > 6 {
+        let _ = write!(s, ", … {} more", v.len() - 6);
+    }
+    format!("[{s}]")
+}
+
+/// The metamorphic comparison; `tripped` = a configured limit is exceeded for the big program.
+fn twin_oracle(big: &Digest, twin: &Digest, tripped: bool, oracle: &mut Vec<String>) {
+    if twin.limit != "none" {
+        oracle.push(format!("twin generator: the small twin itself exceeds a limit ({})", twin.limit));
+        return;
+    }
+    if big.pay_out != twin.pay_out || big.rt != twin.rt {
+        oracle.push(format!(
+            "twin payload output differs from the small-component twin: {:?} ({}) vs {:?} ({})",
+            clip(&big.pay_out.join("\n")),
+            big.rt,
+            clip(&twin.pay_out.join("\n")),
+            twin.rt
+        ));
+    }
+    if tripped {
+        return;
+    }
+    let (twin_only, big_only) = diff_sorted(&twin.pay_warn, &big.pay_warn);
+    if !twin_only.is_empty() || !big_only.is_empty() {
+        oracle.push(format!(
+            "twin payload warnings differ from the small-component twin although no limit is exceeded and no \
+             resource-limit warning was emitted: missing {} extra {}",
+            show_list(&twin_only),
+            show_list(&big_only)
+        ));
+    }
+    let (twin_only, big_only) = diff_sorted(&twin.pay_plan, &big.pay_plan);
+    if !twin_only.is_empty() || !big_only.is_empty() {
+        oracle.push(format!(
+            "twin payload plan differs from the small-component twin although no limit is exceeded: not pruned {} \
+             pruned only here {}",
+            show_list(&twin_only),
+            show_list(&big_only)
+        ));
+    }
+    let (twin_only, big_only) = diff_sorted(&twin.out_warn, &big.out_warn);
+    if !twin_only.is_empty() || !big_only.is_empty() || twin.out_plan != big.out_plan {
+        oracle.push(format!(
+            "twin surroundings differ from the small-component twin (warnings outside the payload: missing {} extra {}; \
+             pruned outside the payload {} vs {})",
+            show_list(&twin_only),
+            show_list(&big_only),
+            big.out_plan,
+            twin.out_plan
+        ));
+    }
+    // the side-effect-free component is used or unused as a whole, and alike in both programs
+    let whole = |total: usize, n: usize| if n == 0 { Some(false) } else if n == total { Some(true) } else { None };
+    for i in 0..2 {
+        let b = (whole(big.comp_total[i], big.comp_warn[i]), whole(big.comp_total[i], big.comp_plan[i]));
+        let t = (whole(twin.comp_total[i], twin.comp_warn[i]), whole(twin.comp_total[i], twin.comp_plan[i]));
+        if b.0.is_none() || b.1.is_none() || b != t {
+            oracle.push(format!(
+                "twin surroundings differ from the small-component twin (definitions of component `{}` warned about / pruned: \
+                 {}/{} of {} here, {}/{} of {} in the twin)",
+                ["c", "p"][i], big.comp_warn[i], big.comp_plan[i], big.comp_total[i], twin.comp_warn[i], twin.comp_plan[i], twin.comp_total[i]
+            ));
+        }
+    }
+}
+
+fn answer_prog(caps: Option<AnalysisCaps>, rootspan: &str, hexsrc: &str, extras: Option<&str>, lineno: usize) -> Answer {
     let Some(bytes) = util::unhex(hexsrc) else { return bad() };
     let Ok(src) = String::from_utf8(bytes) else { return bad() };
+    let Some(extras) = parse_extras(extras) else { return bad() };
+    let expect = extras.expect.as_deref();
     let arena = arena_for(src.len());
     let frame = Arena::new(pipeline::ARENA_CAP).unwrap();
     let lexer = Lexer::new(&src, &arena);
@@ -558,6 +842,20 @@ fn answer_prog(caps: Option<AnalysisCaps>, rootspan: &str, hexsrc: &str, expect:
         || counts.total_blocks != counts.function_blocks.iter().sum::<u32>()
     {
         oracle.push("totals are not the sums of the per-function counters".to_string());
+    }
+    // The preflight bound is what justifies the fixpoint's event budget: with a budget of exactly
+    // f·(f + 2l + 2) events (never more than the configured cap once the preflight passed) the
+    // interprocedural summaries must all come out available - however the call graph is shaped.
+    if !resolver.errors.has_errors() && (first_exceeded_limit(facts, &counts, DEFAULT_CAPS).is_none() || facts.functions.len() <= 300) {
+        let budget = u64::try_from(obs[9]).unwrap_or(u64::MAX);
+        let summaries = summary::compute_summaries_with_max_events(facts, budget, &arena);
+        let lost = summaries.iter().filter(|s| !s.available).count();
+        if lost != 0 {
+            oracle.push(format!(
+                "summary budget: {lost} of {} function summaries are unavailable although the event budget equals the preflight bound {budget}",
+                summaries.len()
+            ));
+        }
     }
     let mut ans = format!("counts={} limit={real_s}", counts_str(facts, &counts));
 
@@ -625,15 +923,45 @@ fn answer_prog(caps: Option<AnalysisCaps>, rootspan: &str, hexsrc: &str, expect:
                 clip(&without.0)
             ));
         }
-        if let Some(x) = expect
-            && x != "?"
+        if let Some(want) = expect
+            && (want != with_plan.0 || with_plan.1 != "-")
         {
-            let want = util::unhex(x).map(|b| String::from_utf8_lossy(&b).into_owned()).unwrap_or_default();
-            if want != with_plan.0 || with_plan.1 != "-" {
-                oracle.push(format!("output {:?} ({}) differs from the expected {:?}", clip(&with_plan.0), with_plan.1, clip(&want)));
-            }
+            oracle.push(format!("output {:?} ({}) differs from the expected {:?}", clip(&with_plan.0), with_plan.1, clip(want)));
         }
         run_info = format!("out={} rt={}", util::hex(clip(&with_plan.0).as_bytes()), with_plan.1);
+        if let Some(twin_src) = extras.twin.as_deref() {
+            let tripped = default_limit.is_some();
+            let big = digest_of(&resolver, &src, extras.off, extras.pay_len, extras.pre_lines, limit_str(default_limit), &with_plan);
+            if let Some(want) = extras.pre_expect.as_deref()
+                && big.pre_out.join("\n") != want
+            {
+                oracle.push(format!(
+                    "output before the payload {:?} differs from the expected {:?}",
+                    clip(&big.pre_out.join("\n")),
+                    clip(want)
+                ));
+            }
+            let n0 = oracle.len();
+            match twin_digest(twin_src, extras.twin_off, extras.pay_len, extras.pre_lines) {
+                Ok(twin) => {
+                    twin_oracle(&big, &twin, tripped, &mut oracle);
+                    side.push(format!(
+                        "SCC {lineno} spec={} obs={} limit={} paywarn={} payplan={} twinwarn={} twinplan={} same={}",
+                        if extras.spec.is_empty() { "-" } else { &extras.spec },
+                        obs.iter().map(u128::to_string).collect::<Vec<_>>().join(","),
+                        big.limit,
+                        big.pay_warn.len(),
+                        big.pay_plan.len(),
+                        twin.pay_warn.len(),
+                        twin.pay_plan.len(),
+                        u8::from(oracle.len() == n0)
+                    ));
+                }
+                Err(m) => oracle.push(format!("twin generator: {m}")),
+            }
+        }
+    } else if extras.twin.is_some() {
+        oracle.push("twin generator: the program is rejected or not runnable".to_string());
     }
     if e2e {
         side.push(format!(
@@ -738,6 +1066,18 @@ fn generate(args: &[String]) -> i32 {
                     bump("prog_with_resolver_errors");
                 }
             }
+        }
+    }
+    // small programs with cyclic call graphs (the random programs above never recurse), each with
+    // its ring-of-3 twin
+    for _ in 0..n / 50 {
+        let c = scc_random_small(&mut rng);
+        match scc_line(&c) {
+            Ok(l) => {
+                out.line(&l);
+                bump("scc_small");
+            }
+            Err(_) => bump("scc_small_generator_failure"),
         }
     }
     let s: Vec<String> = stats.iter().map(|(k, v)| format!("{k}={v}")).collect();
@@ -1253,6 +1593,550 @@ fn e2e_source(name: &str, delta: i64) -> Option<(String, String)> {
     Some((s, expected))
 }
 
+// ------------------------------------------------------------------------------------------------
+// gen-scc: programs BELOW (and just above) the limits whose call graph has a LARGE strongly
+// connected component next to many independent functions, each with a small twin
+
+/// One generated program.  Text form: `scc/k=300/d=5/s=600` (omitted fields take the defaults).
+#[derive(Clone, Debug)]
+struct Scc {
+    /// size of the component `c0 … c(k-1)` (mutual recursion through the global `fuel`), >= 3
+    k: u64,
+    /// size of a second, side-effect-free component `p0 …` (0 = none, else >= 3)
+    kp: u64,
+    /// edges of `c`: 1 ring i→i+1 (k sweeps of the fixpoint), 2 ring + chord i→7i+3, 3 both
+    /// directions + chord, 4 i→i+1..i+8, 5 ring i→i-1 (two sweeps)
+    d: u64,
+    /// `c0` statically reaches every independent function (`hub0 → hub → s*`): the component
+    /// needs k·(k + s) events instead of k·k
+    hub: bool,
+    /// every 8th independent function reads and writes a root variable of its own
+    cap: bool,
+    /// independent leaf functions (every 4th calls its predecessor), each called once, >= 4;
+    /// 0 with `frac` > 0: as many as fit below the summary-event target
+    s: u64,
+    /// summary-event target in ppm of `max_summary_events` (0 = no padding): parameters of the
+    /// never-called `wide` are added up to the largest local count whose bound stays <= target
+    frac: u64,
+    /// … plus this many locals (frac=1000000, dl=1: the first size above the cap)
+    dl: i64,
+    /// payload variant: 0 the canonical payload, n > 0 a random one from `Rng(n)`
+    pay: u64,
+    /// second limit to sit on: none | statements | fnblocks | liveness | scopes | locals
+    pad: String,
+    /// observed = cap + pd for the `pad` metric (liveness: largest size <= cap, plus pd statements)
+    pd: i64,
+}
+
+impl Default for Scc {
+    fn default() -> Self {
+        Scc { k: 3, kp: 0, d: 1, hub: false, cap: false, s: 5, frac: 0, dl: 0, pay: 0, pad: "none".into(), pd: 0 }
+    }
+}
+
+const SCC_PADS: [&str; 6] = ["none", "statements", "fnblocks", "liveness", "scopes", "locals"];
+
+fn parse_scc(text: &str) -> Option<Scc> {
+    let mut it = text.split('/');
+    if it.next()? != "scc" {
+        return None;
+    }
+    let mut c = Scc::default();
+    for kv in it {
+        let (key, v) = kv.split_once('=')?;
+        match key {
+            "k" => c.k = v.parse().ok()?,
+            "kp" => c.kp = v.parse().ok()?,
+            "d" => c.d = v.parse().ok()?,
+            "hub" => c.hub = v == "1",
+            "cap" => c.cap = v == "1",
+            "s" => c.s = v.parse().ok()?,
+            "frac" => c.frac = v.parse().ok()?,
+            "dl" => c.dl = v.parse().ok()?,
+            "pay" => c.pay = v.parse().ok()?,
+            "pad" => c.pad = v.to_string(),
+            "pd" => c.pd = v.parse().ok()?,
+            _ => return None,
+        }
+    }
+    let ok = c.k >= 3
+        && c.k <= 4096
+        && (c.kp == 0 || (3..=4096).contains(&c.kp))
+        && (1..=5).contains(&c.d)
+        && (c.s == 0 && c.frac > 0 || (4..=16384).contains(&c.s))
+        && c.frac <= 2_000_000
+        && SCC_PADS.contains(&c.pad.as_str());
+    ok.then_some(c)
+}
+
+fn scc_str(c: &Scc) -> String {
+    format!(
+        "scc/k={}/kp={}/d={}/hub={}/cap={}/s={}/frac={}/dl={}/pay={}/pad={}/pd={}",
+        c.k, c.kp, c.d, u8::from(c.hub), u8::from(c.cap), c.s, c.frac, c.dl, c.pay, c.pad, c.pd
+    )
+}
+
+/// The sizes of everything outside the payload.
+#[derive(Clone, Copy)]
+struct SccSizes {
+    k: u64,
+    kp: u64,
+    s: u64,
+    /// parameters of `wide`
+    w: u64,
+    /// amount of the `pad` construct (statements / ifs / scopes) and dead tails (fnblocks)
+    padn: u64,
+    padrem: u64,
+}
+
+struct SccSrc {
+    src: String,
+    off: usize,
+    pay_len: usize,
+    /// expected output before the payload, and its number of lines
+    pre_out: String,
+    pre_lines: usize,
+}
+
+fn scc_edges(d: u64, i: u64, k: u64) -> Vec<u64> {
+    let raw: Vec<u64> = match d {
+        1 => vec![(i + 1) % k],
+        2 => vec![(i + 1) % k, (7 * i + 3) % k],
+        3 => vec![(i + 1) % k, (i + k - 1) % k, (7 * i + 3) % k],
+        4 => (1..=8).map(|j| (i + j) % k).collect(),
+        _ => vec![(i + k - 1) % k],
+    };
+    let mut v = Vec::new();
+    for t in raw {
+        if !v.contains(&t) {
+            v.push(t);
+        }
+    }
+    v
+}
+
+/// Calls available to the payload in every size: results do not depend on the sizes (`c*()` returns
+/// what is left of `fuel`, at most 6; `p*()` 7; `s*()` 1; `g*()` see `scc_payload`).
+fn scc_payload(c: &Scc) -> String {
+    let mut p = String::new();
+    // callers inside the payload: of the component, of a caller of the component, of an
+    // independent function.  Each holds a dead store that is only provably dead when the callee's
+    // summary is available (`t get 2` is overwritten by `t get 3` with only the call in between).
+    p.push_str("do g1() start\nmake t get 1\nt get 2\nmake h get c0()\nt get 3\nreturn t add h\nend\n");
+    p.push_str("do g2() start\nmake z get 1\nz get 2\nmake h get g1()\nz get 3\nreturn z add h\nend\n");
+    p.push_str("do g3() start\nmake e get 1\ne get 2\nmake h get s0()\ne get 3\nreturn e add h\nend\n");
+    if c.pay == 0 {
+        // dead store across a call into the component; unused variable in a function that calls
+        // it; control: the same across a call to an independent function
+        p.push_str("make x get 0\nx get 1\nmake hops get c0()\nx get 2\nmake u get 9\n");
+        p.push_str("make y get 0\ny get 1\nmake one get g3()\ny get 2\n");
+        if c.kp > 0 {
+            // unused result of a call into the side-effect-free component: warned about and pruned
+            p.push_str("make v get p0()\np1()\n");
+        }
+        p.push_str("make n get 4\nn get 5\nc1()\nn get 6\nfuel get 2\n");
+        p.push_str("shout(x add hops add y add one add n)\nshout(g1())\nshout(g2())\n");
+        return p;
+    }
+    let mut rng = Rng::new(c.pay ^ 0x5CC0_5CC0);
+    let mut calls: Vec<&str> = vec!["c0()", "c1()", "c2()", "c0()", "g1()", "g2()", "g3()", "s0()", "s2()", "s3()"];
+    if c.kp > 0 {
+        calls.extend(["p0()", "p1()", "p2()"]);
+    }
+    let mut vars: Vec<String> = vec!["x".into(), "y".into()];
+    p.push_str("make x get 0\nmake y get 1\n");
+    let n = 10 + rng.below(15);
+    let mut fresh = 0u64;
+    for _ in 0..n {
+        let v = rng.pick(&vars).clone();
+        let call = *rng.pick(&calls);
+        let (a, b) = (rng.below(10), rng.below(10));
+        match rng.below(11) {
+            0 => {
+                fresh += 1;
+                let _ = writeln!(p, "make v{fresh} get {a}");
+                vars.push(format!("v{fresh}"));
+            }
+            1 => {
+                let _ = writeln!(p, "{v} get {a}");
+            }
+            2 => {
+                let _ = writeln!(p, "{v} get {v} add {call}");
+            }
+            3 => {
+                fresh += 1;
+                let _ = writeln!(p, "make h{fresh} get {call}");
+                vars.push(format!("h{fresh}"));
+            }
+            4 => {
+                let _ = writeln!(p, "{call}");
+            }
+            5 => {
+                let _ = writeln!(p, "shout({v})");
+            }
+            6 => {
+                let _ = writeln!(p, "{v} get {a}\n{call}\n{v} get {b}");
+            }
+            7 => {
+                let _ = writeln!(p, "if to say ({v} small pass {a}) start\n{v} get {b}\n{call}\nend");
+            }
+            8 => {
+                fresh += 1;
+                let _ = writeln!(p, "start\nmake q{fresh} get {a}\n{call}\nend");
+            }
+            9 => {
+                let _ = writeln!(p, "fuel get {}", rng.below(7));
+            }
+            _ => {
+                let _ = writeln!(p, "jasi ({v} small pass 3) start\n{v} get {v} add 1\n{call}\nend");
+            }
+        }
+    }
+    let _ = writeln!(p, "shout({})", vars.join(" add "));
+    p
+}
+
+fn scc_source(c: &Scc, z: &SccSizes) -> SccSrc {
+    let mut s = String::new();
+    s.push_str("make fuel get 5\nmake acc get 0\n");
+    // the component
+    for i in 0..z.k {
+        let _ = write!(s, "do c{i}() start if to say (fuel small pass 1) start return 0 end fuel get fuel minus 1 return ");
+        for t in scc_edges(c.d, i, z.k) {
+            let _ = write!(s, "c{t}() add ");
+        }
+        if c.hub && i == 0 {
+            s.push_str("hub0() add ");
+        }
+        s.push_str("1 end\n");
+    }
+    // the side-effect-free component: a static ring (every body returns before its call)
+    for i in 0..z.kp {
+        let _ = writeln!(s, "do p{i}() start if to say (true) start return 7 end return p{}() end", (i + 1) % z.kp);
+    }
+    // independent functions
+    for i in 0..z.s {
+        if i % 4 == 3 {
+            let _ = writeln!(s, "do s{i}() start return s{}() end", i - 1);
+        } else if c.cap && i % 8 == 1 {
+            let _ = writeln!(s, "make cg{i} get 0\ndo s{i}() start cg{i} get cg{i} add 1 return 1 end");
+        } else {
+            let _ = writeln!(s, "do s{i}() start return 1 end");
+        }
+    }
+    let calls16 = |s: &mut String, var: &str| {
+        let mut i = 0;
+        while i < z.s {
+            let _ = write!(s, "{var} get {var}");
+            for j in i..(i + 16).min(z.s) {
+                let _ = write!(s, " add s{j}()");
+            }
+            s.push('\n');
+            i += 16;
+        }
+    };
+    if c.hub {
+        // never runs (`fuel` stays below 100) but links the component to every independent function
+        s.push_str("do hub0() start if to say (fuel small pass 100) start return 0 end return hub() end\n");
+        s.push_str("do hub() start\nmake a get 0\n");
+        calls16(&mut s, "a");
+        s.push_str("return a\nend\n");
+    }
+    // padding towards a second limit (inside functions of their own: the root stays small)
+    match c.pad.as_str() {
+        "statements" => {
+            s.push_str("do padf() start\nmake q get 0\n");
+            for _ in 0..z.padn {
+                s.push_str("q get q add 0\n");
+            }
+            s.push_str("return q\nend\nacc get acc add padf()\n");
+        }
+        "fnblocks" => {
+            s.push_str("do padf() start\n");
+            for _ in 0..z.padn {
+                s.push_str("if to say (true) start end\n");
+            }
+            s.push_str("return 0\n");
+            for _ in 0..z.padrem {
+                s.push_str("shout(0)\nreturn 0\n");
+            }
+            s.push_str("end\nacc get acc add padf()\n");
+        }
+        "scopes" => {
+            s.push_str("do padf() start\n");
+            for _ in 0..z.padn {
+                s.push_str("start end\n");
+            }
+            s.push_str("return 0\nend\nacc get acc add padf()\n");
+        }
+        _ => {}
+    }
+    calls16(&mut s, "acc");
+    s.push_str("shout(acc)\n");
+    let off = s.len();
+    let payload = scc_payload(c);
+    s.push_str(&payload);
+    let pay_len = payload.len();
+    // after the payload: functions with many parameters (kept out of the root's local range)
+    let _ = write!(s, "do wide(");
+    for j in 0..z.w.max(1) {
+        if j > 0 {
+            s.push_str(", ");
+        }
+        let _ = write!(s, "a{j}");
+    }
+    s.push_str(") start end\n");
+    if c.pad == "liveness" {
+        let params = if z.padrem == 0 { 2 } else { z.padrem };
+        s.push_str("do lv(");
+        for j in 0..params {
+            if j > 0 {
+                s.push_str(", ");
+            }
+            let _ = write!(s, "b{j}");
+        }
+        s.push_str(") start\n");
+        for _ in 0..z.padn {
+            s.push_str("shout(0)\n");
+        }
+        s.push_str("end\n");
+    }
+    SccSrc { src: s, off, pay_len, pre_out: z.s.to_string(), pre_lines: 1 }
+}
+
+/// Observed metrics of a source (no AST text: this runs up to three times per program).
+fn measure(src: &str) -> Result<[u128; 11], String> {
+    util::catch(|| {
+        let arena = arena_for(src.len());
+        let lexer = Lexer::new(src, &arena);
+        let mut parser = Parser::new(lexer, &arena);
+        let (root, perrs) = parser.parse_program();
+        if !perrs.diagnostics.is_empty() {
+            return Err(format!("parse error in generated program: {}", pipeline::diags_str(perrs)));
+        }
+        let mut resolver = Resolver::new(&arena);
+        resolver.resolve(root);
+        if resolver.errors.has_errors() {
+            return Err(format!("generated program rejected: {}", pipeline::diags_str(&resolver.errors)));
+        }
+        let counts = cfg::count_program(&resolver.facts, &arena);
+        Ok(observed_naive(&resolver.facts, &counts))
+    })
+    .unwrap_or_else(|m| Err(format!("front end panicked: {}", m.replace('\n', " "))))
+}
+
+const LV_PARAMS: u64 = 4096;
+
+/// The program of a spec and its twin.  Sizes that depend on the crate's counting (padding up to a
+/// cap) are found by measuring a first version with the real front end.
+fn scc_build(c: &Scc) -> Result<(SccSrc, SccSrc), String> {
+    let caps = caps_vec(&DEFAULT_CAPS);
+    let mut c = c.clone();
+    if c.s == 0 {
+        // as many independent functions as the target allows: functions and locals grow linearly
+        // with s (one function each; with `cap` one root local for every s ≡ 1 mod 8)
+        c.s = 4;
+        let z = SccSizes { k: c.k, kp: c.kp, s: 4, w: 1, padn: 1, padrem: if c.pad == "liveness" { LV_PARAMS } else { 0 } };
+        let obs = measure(&scc_source(&c, &z).src)?;
+        let target = u128::from(caps[9]) * u128::from(c.frac) / 1_000_000;
+        let bound = |s: u128| {
+            let f = obs[0] + (s - 4);
+            let l = obs[1] + if c.cap { (s + 6) / 8 - 1 } else { 0 };
+            f * (f + 2 * l + 2)
+        };
+        let mut s = 4u128;
+        while s < 16000 && bound(s + 1) <= target {
+            s += 1;
+        }
+        c.s = s as u64;
+    }
+    let c = &c;
+    let twin_z = SccSizes {
+        k: 3,
+        kp: if c.kp > 0 { 3 } else { 0 },
+        s: 5,
+        w: 1,
+        padn: 1,
+        // the same number of dead tails as the big program (their warnings are outside the payload)
+        padrem: 0,
+    };
+    let mut z = SccSizes { k: c.k, kp: c.kp, s: c.s, w: 1, padn: 1, padrem: if c.pad == "liveness" { LV_PARAMS } else { 0 } };
+    let mut twin_z = twin_z;
+    let needs_measure = c.frac > 0 || c.pad != "none";
+    if needs_measure {
+        let obs = measure(&scc_source(c, &z).src)?;
+        // 1. locals: parameters of `wide`
+        if c.pad == "locals" {
+            let want = caps[1] as i128 + i128::from(c.pd);
+            z.w = (1 + want - obs[1] as i128).max(1) as u64;
+        } else if c.frac > 0 {
+            let target = u128::from(caps[9]) * u128::from(c.frac) / 1_000_000;
+            let f = obs[0];
+            // largest l with f·(f + 2l + 2) <= target
+            let lmax = (target / f).checked_sub(f + 2).map(|r| r / 2);
+            if let Some(lmax) = lmax {
+                z.w = (1 + lmax as i128 - obs[1] as i128 + i128::from(c.dl)).max(1) as u64;
+            }
+        }
+        // 2. the second limit
+        match c.pad.as_str() {
+            "statements" | "scopes" => {
+                let m = if c.pad == "statements" { 3 } else { 2 };
+                let want = caps[m] as i128 + i128::from(c.pd);
+                z.padn = (1 + want - obs[m] as i128).max(0) as u64;
+            }
+            "fnblocks" => {
+                // blocks of padf = 2 + 3·ifs + dead tails
+                let want = (caps[7] as i128 + i128::from(c.pd) - 2).max(3) as u64;
+                z.padn = want / 3;
+                z.padrem = want % 3;
+                twin_z.padrem = z.padrem;
+            }
+            "liveness" => {
+                // lv contributes (2·2 + n)·LV_PARAMS, `wide` 4·w; everything else was measured
+                let base = obs[10] as i128 - i128::from(5 * LV_PARAMS) - 4 + 4 * i128::from(z.w);
+                let room = caps[10] as i128 - base;
+                let n = room / i128::from(LV_PARAMS) - 4 + i128::from(c.pd);
+                z.padn = n.max(0) as u64;
+            }
+            _ => {}
+        }
+    }
+    Ok((scc_source(c, &z), scc_source(c, &twin_z)))
+}
+
+fn scc_line(c: &Scc) -> Result<String, String> {
+    let (big, twin) = scc_build(c)?;
+    if big.src[big.off..big.off + big.pay_len] != twin.src[twin.off..twin.off + twin.pay_len] {
+        return Err("payload text differs between the program and its twin".to_string());
+    }
+    let f = front(&big.src)?;
+    if f.errors {
+        return Err("generated program is rejected by the resolver".to_string());
+    }
+    Ok(format!(
+        "e2e {} {} X=?,T={},P={}:{}:{},O={},A={},G={} {} {}",
+        f.rootspan,
+        util::hex(big.src.as_bytes()),
+        util::hex(twin.src.as_bytes()),
+        big.off,
+        twin.off,
+        big.pay_len,
+        big.pre_lines,
+        util::hex(big.pre_out.as_bytes()),
+        scc_str(c),
+        f.facts,
+        f.ast
+    ))
+}
+
+/// Random spec.  `big`: the thorough tier's sizes (seconds per program in a debug build).
+fn scc_random(rng: &mut Rng, big: bool) -> Scc {
+    let cap = u128::from(DEFAULT_CAPS.max_summary_events);
+    let d = 1 + rng.below(5);
+    // forward rings and i+1..i+8 graphs need ~k sweeps (k^4/3 comparisons): keep them smaller
+    let slow = d == 1 || d == 4;
+    let kmax = match (slow, big) {
+        (true, false) => 160,
+        (true, true) => 320,
+        (false, false) => 600,
+        (false, true) => 1000,
+    };
+    let k = if rng.chance(1, 4) { 50 + rng.below(30) } else { 50 + rng.below(kmax - 49) };
+    let kp = if rng.chance(1, 2) { 0 } else { 3 + rng.below(if big { 300 } else { 120 }) };
+    let frac = *rng.pick(&[0, 0, 10_000, 50_000, 250_000, 500_000, 900_000, 1_000_000, 1_000_000]);
+    let dl = if frac == 1_000_000 && rng.chance(1, 3) { 1 } else { 0 };
+    // the function count must leave room below the target: f·(f + 2) <= target
+    let target = if frac == 0 { cap / 4 } else { cap * u128::from(frac) / 1_000_000 };
+    let mut fmax = 1u64;
+    while u128::from(fmax + 1) * u128::from(fmax + 3 + 64) <= target {
+        fmax += 1;
+    }
+    let fixed = k + kp + 12;
+    let smax = fmax.saturating_sub(fixed).clamp(4, if big { 3900 } else { 1500 });
+    let s = match rng.below(4) {
+        0 => 4 + rng.below(40.min(smax - 3)),
+        1 => smax,
+        _ => 4 + rng.below(smax - 3),
+    };
+    let pad = if rng.chance(1, if big { 3 } else { 6 }) {
+        (*rng.pick(&["fnblocks", "liveness", "statements"])).to_string()
+    } else {
+        "none".to_string()
+    };
+    let pd = if pad == "none" { 0 } else { *rng.pick(&[-1, 0, 0, 1]) };
+    let mut c = Scc { k, kp, d, hub: rng.chance(1, 3), cap: rng.chance(1, 3), s, frac, dl, pay: rng.below(1_000_000), pad, pd };
+    // keep the fixpoint's own work (element comparisons, see `scc_cost`) within a second or so
+    let budget = if big { 2.0e10 } else { 3.0e9 };
+    if scc_cost(&c) > budget {
+        c.hub = false;
+    }
+    if scc_cost(&c) > budget {
+        c.d = if c.d == 1 { 5 } else { 3 };
+    }
+    c
+}
+
+/// Small cyclic shapes for the random stream (milliseconds each).
+fn scc_random_small(rng: &mut Rng) -> Scc {
+    Scc {
+        k: 3 + rng.below(38),
+        kp: if rng.chance(1, 2) { 0 } else { 3 + rng.below(8) },
+        d: 1 + rng.below(5),
+        hub: rng.chance(1, 2),
+        cap: rng.chance(1, 2),
+        s: 4 + rng.below(57),
+        pay: 1 + rng.below(1_000_000),
+        ..Scc::default()
+    }
+}
+
+/// Rough number of element comparisons `summarize_component` spends on the big component: sweeps ×
+/// members × (size of a transitive callee set)².  About 10^10 per second in the harness build.
+fn scc_cost(c: &Scc) -> f64 {
+    let k = c.k as f64;
+    let sweeps = match c.d {
+        1 => k,
+        4 => k / 8.0 + 2.0,
+        2 => k.log2() + 2.0,
+        _ => 3.0,
+    };
+    let set = k + if c.hub { c.s as f64 } else { 0.0 };
+    sweeps * k * set * set
+}
+
+fn gen_scc(args: &[String]) -> i32 {
+    let mut specs: Vec<Scc> = Vec::new();
+    if let Some(cases) = util::opt(args, "--case") {
+        for case in cases.split(',').filter(|c| !c.is_empty()) {
+            let Some(c) = parse_scc(case) else {
+                eprintln!("bad scc spec {case}");
+                return 2;
+            };
+            specs.push(c);
+        }
+    }
+    let n = util::opt_u64(args, "--n", 0);
+    let mut rng = Rng::new(util::opt_u64(args, "--seed", 1) ^ 0x5CC);
+    for _ in 0..n {
+        specs.push(scc_random(&mut rng, util::flag(args, "--big")));
+    }
+    let mut out = util::Out::new();
+    for c in &specs {
+        match scc_line(c) {
+            Ok(l) => {
+                out.line(&l);
+                eprintln!("SCC-SPEC {}", scc_str(c));
+            }
+            Err(m) => {
+                eprintln!("GEN-FAIL {} {m}", scc_str(c));
+                return 3;
+            }
+        }
+    }
+    0
+}
+
 fn parse_case(s: &str) -> Option<(String, i64)> {
     let (n, d) = s.split_once(':')?;
     Some((n.to_string(), d.parse().ok()?))
@@ -1317,6 +2201,18 @@ fn mk() -> i32 {
 }
 
 fn print_src(args: &[String]) -> i32 {
+    if let Some(c) = util::opt(args, "--case").and_then(parse_scc) {
+        return match scc_build(&c) {
+            Ok((big, twin)) => {
+                print!("{}", if util::flag(args, "--twin") { twin.src } else { big.src });
+                0
+            }
+            Err(m) => {
+                eprintln!("GEN-FAIL {m}");
+                3
+            }
+        };
+    }
     let Some((name, delta)) = util::opt(args, "--case").and_then(parse_case) else { return 2 };
     match e2e_source(&name, delta) {
         Some((src, _)) => {
